@@ -369,7 +369,9 @@ Theorem C14_trace_is_the_walk : forall (C : Type) E dt skip_zero fuel dc ctx0 op
 Proof. exact trace_outcome. Qed.
 
 (** every call, for every document (valid or not), every variables, every cost functions: it is the
-    call of a field selection of the chosen operation or of a fragment of the document, on exactly
+    call of a field selection of a node REACHED from the chosen operation ([reached]: its body, the
+    definitions of the fragments spread inside reached nodes — not fragments only other operations
+    use, whose variables the chosen operation need not declare), on exactly
     the map C05's CoerceArgumentValues returned for that selection under the coerced variables of
     the chosen operation (and the cost function answered) *)
 Theorem C14_every_cost_call_is_coerced : forall (C : Type) E dt skip_zero fuel dc ctx0 ops frs opname raw max c,
@@ -377,7 +379,7 @@ Theorem C14_every_cost_call_is_coerced : forall (C : Type) E dt skip_zero fuel d
   exists o vv,
     chosen_op C ops opname = Some o /\
     CoerceModel.coerce_variable_values CoerceModel.all_fixed E dt (ao_vardefs o) raw = Values.Ok vv /\
-    (field_in C (ao_body o) (c_field c) \/ exists p, In p frs /\ field_in C (snd p) (c_field c)) /\
+    (exists m, reached C frs (ao_body o) m /\ field_in C m (c_field c)) /\
     CoerceModel.coerce_argument_values CoerceModel.all_fixed E dt (af_argdefs (c_field c)) (af_args (c_field c)) vv
     = Values.Ok (c_args c) /\
     exists g, af_cost (c_field c) = Some g /\ g (c_ctx c) (c_args c) <> None.
@@ -391,7 +393,7 @@ Theorem C14_every_cost_call_conforms : forall (C : Type) E dt skip_zero fuel dc 
   chosen_op C ops opname = Some o ->
   CoerceSpec.env_ok E = true ->
   CoerceModel.has_dup (map Values.vd_name (ao_vardefs o)) = false -> CoerceProofs.request_ok (ao_vardefs o) raw ->
-  (forall f, field_in C (ao_body o) f \/ (exists p, In p frs /\ field_in C (snd p) f) ->
+  (forall f, (exists m, reached C frs (ao_body o) m /\ field_in C m f) ->
              CoerceModel.has_dup (map fst (af_argdefs f)) = false /\
              (forall ad, In ad (af_argdefs f) -> CoerceSpec.default_ok E (snd ad) = true) /\
              field_usage_ok C E (ao_vardefs o) f = true) ->
